@@ -350,6 +350,11 @@ func (h *Hist) Step() {
 			p := h.paths[t.Choose(len(h.paths), "path")]
 			h.WriteFile(p, h.NewContent())
 			h.log("write %s", p)
+			// sometimes the file is executable (tree mode 100755)
+			if t.Bool(1, 6, "executable-file") {
+				os.Chmod(filepath.Join(h.Dir, p), 0755)
+				h.log("chmod +x %s", p)
+			}
 		}
 		h.commit(fmt.Sprintf("change %d", h.nCommit))
 	case 4: // duplicate an existing content under another path
